@@ -1175,6 +1175,10 @@ token * mmd_tokenize_string(mmd_engine * e, size_t start, size_t len, bool stop_
 					} else if (line->type != LINE_META) {
 						e->allow_meta = false;
 					}
+				} else if (e->allow_meta && (line->type == LINE_SETEXT_2)) {
+					// A line of dashes closes the metadata block (see parser.y) --
+					// what follows it is the body, even without an empty line
+					e->allow_meta = false;
 				}
 
 				if (stop_on_empty_line) {
